@@ -341,8 +341,8 @@ func (s *netSim) byzAct(b int) {
 	nd := s.nodes[to]
 	rs := nd.CS.GetRoundState()
 	h := rs.Height
-	if s.w.IndexAt(h, b) < 0 {
-		return // not a validator at this height
+	if s.w.IndexAt(h, b) < 0 && !(h > 1 && s.w.IndexAt(h-1, b) >= 0) {
+		return // not a validator at this height (nor at the previous one)
 	}
 	// candidate block ids at this height
 	var cands []string
@@ -351,6 +351,32 @@ func (s *netSim) byzAct(b int) {
 	}
 	sort.Strings(cands)
 	cands = append(cands, "nil")
+	if h > 1 && rs.LastCommit != nil && s.rng.Intn(6) == 0 && s.w.IndexAt(h-1, b) >= 0 {
+		// a LATE precommit for the previous height (handled through cs.LastCommit while the node is in NewHeight):
+		// for the committed block, for nil or for another block - also by a validator that has left the set since
+		var prev []string
+		for _, n := range s.names[h-1] {
+			prev = append(prev, n)
+		}
+		sort.Strings(prev)
+		prev = append(prev, "nil")
+		name := prev[s.rng.Intn(len(prev))]
+		key := fmt.Sprintf("late/%d/%d/%s/%d", b, h-1, name, to)
+		if s.byzSent[key] {
+			return
+		}
+		s.byzSent[key] = true
+		id := types.BlockID{}
+		if name != "nil" {
+			id = s.ids[name]
+		}
+		v := s.w.SignVoteFor(b, kproto.PrecommitType, h-1, rs.LastCommit.GetRound(), id, time.Now())
+		s.deliver(flight{to: to, from: b, msg: &consensus.VoteMessage{Vote: v}})
+		return
+	}
+	if s.w.IndexAt(h, b) < 0 {
+		return
+	}
 	switch s.rng.Intn(4) {
 	case 0, 1, 2: // a vote, possibly conflicting with what it told others
 		name := cands[s.rng.Intn(len(cands))]
@@ -886,6 +912,8 @@ var netConfigs = map[string]netCfg{
 	// raised, a correct validator removed and re-added with another power, the Byzantine validator's power changed
 	"4eq-change": {powers: []int64{1, 1, 1, 1}, byz: []int{4}, maxH: 7, maxSteps: 4000, dropPct: 6, reorderPct: 30, earlyPct: 20, byzPct: 5,
 		plan: map[uint64][]int64{1: {3, 1, 1, 1}, 2: {3, 1, 0, 1}, 3: {3, 1, 2, 1}, 4: {3, 2, 2, 2}}},
+	"4eq-byz-leaves": {powers: []int64{1, 1, 1, 1, 1}, byz: []int{5}, maxH: 6, maxSteps: 3000, dropPct: 5, reorderPct: 30, earlyPct: 15, byzPct: 12,
+		plan: map[uint64][]int64{1: {1, 1, 1, 1, 0}, 3: {2, 1, 1, 1, 1}}},
 	"5w-change-restart": {powers: []int64{3, 2, 2, 1, 1}, byz: []int{2}, maxH: 7, maxSteps: 4000, dropPct: 6, reorderPct: 30, earlyPct: 20, byzPct: 5,
 		restarts: 6, restartPct: 5,
 		plan: map[uint64][]int64{1: {3, 2, 2, 1, 0}, 2: {2, 2, 2, 1, 0}, 3: {2, 2, 2, 1, 3}, 5: {3, 2, 2, 1, 1}}},
